@@ -36,6 +36,10 @@ CLASS_NEVER = {'FileExistsError', 'PermissionError', 'IsADirectoryError', 'NotAD
                'StopIteration', 'UnicodeError', 'ZeroDivisionError'}
 
 
+# classes an explicit `raise` may name: none of them is (a base class of) anything in the handler tables above
+SAFE_RAISE = {'RuntimeError', 'AssertionError', 'NotImplementedError'}
+
+
 def _key(node: ast.AST) -> str | None:
     if isinstance(node, ast.Name):
         return node.id
@@ -204,7 +208,14 @@ class _ExitTr:
                 return '(SReturn true)'
             raise TranslateError(f'{self.where}: unsupported return value `{ast.unparse(st.value)}` (line {st.lineno})')
         if isinstance(st, ast.Raise):
-            return '(SRaise true)' if st.exc is None else '(SRaise false)'
+            if st.exc is None:
+                return '(SRaise true)'
+            # an explicit raise is modelled as "some exception that no OSError/FileNotFoundError handler catches":
+            # only classes that cannot appear in a handler of the translator's tables are accepted
+            e = st.exc.func if isinstance(st.exc, ast.Call) else st.exc
+            if isinstance(e, ast.Name) and e.id in SAFE_RAISE and st.cause is None:
+                return '(SRaise false)'
+            raise TranslateError(f'{self.where}: unsupported raise `{ast.unparse(st)}` (line {st.lineno})')
         if isinstance(st, ast.Try):
             hs = 'HNil'
             for h in reversed(st.handlers):
